@@ -14,5 +14,8 @@ var specs = map[string]propSpec{
 	"C15": {level: "model_checking", budgetQ: 4 * time.Minute, budgetT: 40 * time.Minute},
 	"C16": {level: "model_checking", budgetQ: 4 * time.Minute, budgetT: 40 * time.Minute},
 	"C14": {level: "model_checking", budgetQ: 4 * time.Minute, budgetT: 40 * time.Minute},
+	"C05": {level: "model_checking", budgetQ: 4 * time.Minute, budgetT: 40 * time.Minute},
+	"C11": {level: "model_checking", budgetQ: 4 * time.Minute, budgetT: 40 * time.Minute},
+	"C19": {level: "model_checking", budgetQ: 4 * time.Minute, budgetT: 40 * time.Minute},
 	"C03": {level: "model_checking", budgetQ: 4 * time.Minute, budgetT: 40 * time.Minute},
 }
